@@ -17,3 +17,19 @@ Example stale_id_rejected :
                 (true, Stmt [VTrials] [VTrials] EAppend); (true, Stmt [VCntPend] [VCntPend] EIncPend); (true, Stmt [] [VLatest] ESetLatest);
                 (false, Release LStudy); (false, Done)]] = false.
 Proof. vm_compute. reflexivity. Qed.
+
+(* the quiescence hypothesis of the theorems is satisfiable on the generated programs: two co-workers of one group, two
+   trials requested, an alternating schedule; both finish, two trials 1..2 exist, both completed and reported once *)
+Definition ex_cfg : cfg := {| c_max := Some 2; c_evo := true; c_needs_fb := true; c_pop := 2; c_policy := false; c_stop := [] |}.
+Definition ex_workers : list (nat * bool * list uop) :=
+  [ (0, false, [UNext; UAdd 3%Z; UDone; UNext; UAdd 5%Z; UDone; UNext]);
+    (0, false, [UNext; UAdd 4%Z; UDone; UNext; USkip; UNext]) ].
+Fixpoint alternate (n : nat) : list nat := match n with O => [] | S k => 0 :: 1 :: alternate k end.
+
+Example quiescence_reachable :
+  let st := run progs ex_cfg (init_state ex_cfg ex_workers) (alternate 500) in
+  finished (snd st) = true /\
+  map t_id (s_trials (studies (fst st) 0)) = [1; 2] /\
+  map t_done (s_trials (studies (fst st) 0)) = [true; true] /\
+  map t_fed (s_trials (studies (fst st) 0)) = map (fun x => if t_inf x then 0 else 1) (s_trials (studies (fst st) 0)).
+Proof. vm_compute. repeat split; reflexivity. Qed.
